@@ -11,6 +11,8 @@ A5: the aggregated-or-grouping rule of summarize (run on real tables, symbolic-f
 
 from __future__ import annotations
 
+import os
+
 import z3
 
 from pydiverse.common import Bool, Date, Datetime, Float64, Int64, String
@@ -247,6 +249,36 @@ def make_replayer(opname, op, dt, backend, ctx_kind, with_filter):
     return replay
 
 
+def make_lib(opname, op, dt, backend, ctx_kind, with_filter, seed):
+    """conformance of the aggregate specification with the real engine on sampled groups (native)"""
+    def run(carve):
+        import random
+
+        from .c13 import _enum_outcome
+
+        if "no_filter_on_count_star" in carve and dt is None and with_filter:
+            return Outcome("discharged", detail="carved out entirely by a known finding", goal="(excluded by known finding)", paths=1, queries=1)
+        rep = make_replayer(opname, op, dt, backend, ctx_kind, with_filter)
+        rnd = random.Random(f"{seed}/{opname}/{dt}/{ctx_kind}/{with_filter}")
+        n, bad = 0, []
+        for rows in (2, 3, 4, 6):
+            for nn in sorted({0, 1, rnd.randint(0, rows), rows}):
+                if nn > rows:
+                    continue
+                m = {"rows": rows, "nn_count_x": nn}
+                if str(dt) == "Bool":
+                    m["nn_any_x"], m["nn_all_x"] = rnd.choice([(False, False), (True, True), (True, False)])
+                r = rep(m)
+                if "no native replay builder" in r["text"]:
+                    return Outcome("discharged", goal="(no native oracle for this column type)", paths=1, queries=1, backend="evaluation")
+                n += 1
+                if r["reproduced"]:
+                    bad.append(r["text"][:400])
+        return _enum_outcome(f"{opname}({dt}) [{ctx_kind}{', filter' if with_filter else ''}] on {backend}: documented aggregate value == real engine on sampled groups", n, bad)
+
+    return run
+
+
 def obligations(tier):
     obs = []
     disp = {"polars": H.fn_info(H.polars_backend.compile_col_expr), "sqlite": H.fn_info(H.sql_backend.SqlImpl.compile_col_expr)}
@@ -270,6 +302,17 @@ def obligations(tier):
                                 functions=fns,
                                 carveouts={"no_filter_on_count_star": "count(filter=...)", "nonempty_nonnull": "group has a non-null value"},
                                 replayer=make_replayer(opname, op, dt, backend, ctx_kind, with_filter),
+                            )
+                        )
+                        obs.append(
+                            Obligation(
+                                f"C04/LIB/{opname}/{backend}/{ctx_kind}/{dt}/filter={with_filter}",
+                                "LIB",
+                                f"{opname}({dt}) on {backend} ({ctx_kind}): the documented value agrees with the real engine on sampled groups",
+                                make_lib(opname, op, dt, backend, ctx_kind, with_filter, int(os.environ.get("VERIF_SEED", "0") or 0)),
+                                functions=fns,
+                                bounded="groups of 2-6 rows with 0..all non-null values (about 12 samples per aggregate x type x context x filter shape); native execution",
+                                carveouts={"no_filter_on_count_star": "count(filter=...)"},
                                 tags=("cross_backend",),
                             )
                         )
